@@ -869,9 +869,24 @@ func (g *genCtx) backProgram(deleted, live [][]byte, around ...[]byte) []IOp {
 	return prog
 }
 
-// an iterator whose range starts at or before deleted keys
-func (g *genCtx) backRead(deleted, live [][]byte) *Read {
+// an iterator whose range starts at or before deleted keys.  focus (nil = none): the point from
+// which the case deleted upwards — the iterator then starts exactly there, i.e. directly behind
+// the tombstones
+func (g *genCtx) backRead(deleted, live [][]byte, focus []byte) *Read {
 	r := g.r
+	if focus != nil && r.Chance(2, 3) {
+		if len(focus) == 0 && r.Bool() {
+			return &Read{T: "range", SNil: true, ENil: true, Prog: g.backProgram(deleted, live)}
+		}
+		if r.Bool() && !(endsFF(focus) && g.store == "moss") {
+			rd := &Read{T: "prefix", P: cloneKey(focus)}
+			rd.Prog = g.backProgram(deleted, live, focus)
+			return rd
+		}
+		rd := &Read{T: "range", S: cloneKey(focus), ENil: true}
+		rd.Prog = g.backProgram(deleted, live, focus)
+		return rd
+	}
 	anchor := func() []byte {
 		if len(deleted) > 0 && !r.Chance(1, 4) {
 			return vrand.Pick(r, deleted)
@@ -921,10 +936,16 @@ func (g *genCtx) backRead(deleted, live [][]byte) *Read {
 	}
 }
 
-// bseek: keys written by 1-3 batches, then 2-4 further batches each deleting one or two of them
-// (preferably the smallest live keys, so that iterators start behind tombstones that sit in several
-// engine segments / versions), readers opened before, between and after; then iterators driven by
-// programs that Seek backwards and Seek after exhaustion.  Every batch holds each key once.
+// bseek: keys written by 1-3 batches, then 2-4 further batches each deleting one or two of them,
+// readers opened before, between and after; then iterators driven by programs that Seek backwards
+// and Seek after exhaustion.  Every batch holds each key once.  Three shapes:
+//
+//	0 (2/5): one base batch; every deletion takes the smallest live key at/after a per-case focus
+//	         point and nothing else is written — an iterator started at the focus begins behind
+//	         tombstones that sit in several engine segments / versions over ONE segment of live data
+//	1 (1/5): as 0, but some deletions elsewhere and now and then another key written alongside
+//	2 (2/5): base data spread over 1-3 batches, deletions mostly of small keys, other keys set /
+//	         merged / brought back in the deleting batches
 func genBackSeek(r *vrand.R, storeName, mo string) In {
 	g := &genCtx{r: r, store: storeName, mo: mo}
 	g.makePoolN(r.Range(6, 12))
@@ -936,6 +957,13 @@ func genBackSeek(r *vrand.R, storeName, mo string) In {
 		}
 	}
 	g.pool = uniq
+	shape := []int{0, 0, 1, 2, 2}[r.Intn(5)]
+	// focus: empty (the whole store) or a proper prefix / the whole of a pool key
+	focus := []byte{}
+	if r.Chance(2, 3) {
+		k := g.poolKey()
+		focus = cloneKey(k[:r.Range(0, len(k))])
+	}
 	var steps []Step
 	live := map[string]bool{}
 	liveKeys := func() [][]byte { // sorted
@@ -949,7 +977,7 @@ func genBackSeek(r *vrand.R, storeName, mo string) In {
 	}
 	// base data: one batch (everything in one engine segment) or spread over 2-3
 	nb := 1
-	if r.Bool() {
+	if shape == 2 && r.Chance(2, 3) {
 		nb = r.Range(2, 3)
 	}
 	base := make([][]Op, nb)
@@ -983,9 +1011,8 @@ func genBackSeek(r *vrand.R, storeName, mo string) In {
 		used := map[string]bool{}
 		var ops []Op
 		for v := r.Range(1, 2); v > 0; v-- {
-			l := liveKeys()
 			var cand [][]byte
-			for _, k := range l {
+			for _, k := range liveKeys() {
 				if !used[string(k)] {
 					cand = append(cand, k)
 				}
@@ -994,15 +1021,11 @@ func genBackSeek(r *vrand.R, storeName, mo string) In {
 				break
 			}
 			var k []byte
-			if r.Chance(2, 3) {
-				// the smallest live key, or the smallest one at/after a random pool key
-				from := []byte{}
-				if r.Chance(1, 3) {
-					from = g.poolKey()
-				}
+			if shape == 0 || r.Chance(2, 3) {
+				// the smallest live key at/after the focus (none left there: the smallest of all)
 				k = cand[0]
 				for _, c := range cand {
-					if bytes.Compare(c, from) >= 0 {
+					if bytes.Compare(c, focus) >= 0 {
 						k = c
 						break
 					}
@@ -1016,7 +1039,16 @@ func genBackSeek(r *vrand.R, storeName, mo string) In {
 			ops = append(ops, Op{T: "del", K: k})
 		}
 		// company: a set / merge of another key (sometimes bringing an earlier deleted key back)
-		for c := r.Intn(3); c > 0; c-- {
+		company := 0
+		switch shape {
+		case 1:
+			if r.Chance(1, 4) {
+				company = 1
+			}
+		case 2:
+			company = r.Intn(3)
+		}
+		for ; company > 0; company-- {
 			k := g.poolKey()
 			if used[string(k)] {
 				continue
@@ -1041,7 +1073,7 @@ func genBackSeek(r *vrand.R, storeName, mo string) In {
 	openReader()
 	newest := open[len(open)-1]
 	for n := r.Range(2, 4); n > 0; n-- {
-		rd := g.backRead(deleted, liveKeys())
+		rd := g.backRead(deleted, liveKeys(), focus)
 		steps = append(steps, Step{T: "read", Rid: newest, Read: rd})
 		// the same iterator on the readers opened earlier (they still hold the deleted keys)
 		for _, rid := range open[:len(open)-1] {
@@ -1067,7 +1099,7 @@ func genBackSeek(r *vrand.R, storeName, mo string) In {
 			}
 		}
 		steps = append(steps, Step{T: "batch", Ops: ops})
-		steps = append(steps, Step{T: "read", Rid: newest, Read: g.backRead(deleted, liveKeys())})
+		steps = append(steps, Step{T: "read", Rid: newest, Read: g.backRead(deleted, liveKeys(), nil)})
 	}
 	return In{Kind: "bseek", Store: storeName, Mo: mo, Steps: g.finish(steps, open, nextRid)}
 }
